@@ -38,9 +38,12 @@ func c06ValidatedFields(c *core.Ctx, rule string) {
 		return
 	}
 	c.Analysed(facts.FuncName(parse))
+	rreqTerm := facts.Term(rreq)
 	isField := func(addr ssa.Value) (string, bool) {
 		base, fld, ok := facts.FieldOf(addr)
-		if !ok || base != ssa.Value(rreq) {
+		// the request under construction: the classifier's local, or (inside a
+		// helper followed by the inliner) the parameter bound to its address
+		if !ok || (base != ssa.Value(rreq) && facts.Term(base) != rreqTerm) {
 			return "", false
 		}
 		_, tracked := fieldPredicate[fld]
@@ -116,6 +119,28 @@ func c06ValidatedFields(c *core.Ctx, rule string) {
 			return true
 		},
 	}
+	// helpers that are handed the request under construction are followed
+	followed := map[*ssa.Function]bool{}
+	facts.NewInliner(&ff, func(h *ssa.Function) bool {
+		if h.Pkg != parse.Pkg {
+			return false
+		}
+		for _, p := range h.Params {
+			if pt, ok := p.Type().(*types.Pointer); ok && isNamed(pt.Elem(), "internal/ocirequest", "Request") {
+				followed[h] = helperTouches(h, 3, func(in ssa.Instruction) bool {
+					st, ok := in.(*ssa.Store)
+					if !ok {
+						return false
+					}
+					_, fld, isF := facts.FieldOf(st.Addr)
+					_, tracked := fieldPredicate[fld]
+					return isF && tracked
+				})
+				return followed[h]
+			}
+		}
+		return false
+	})
 	flow := facts.PathFlow(parse, ff)
 	n := 0
 	for _, r := range returnsOf(parse) {
@@ -126,6 +151,18 @@ func c06ValidatedFields(c *core.Ctx, rule string) {
 		for fld, pred := range fieldPredicate {
 			ok := facts.AllAt(ff, flow, r, func(t facts.Tokens) bool { return !t["set:"+fld] || t["ok:"+fld] })
 			c.Check(ok, rule, "classifier/return/"+fld, r.Pos(), fld+" is unset, constant, or passed ociref."+pred, "a request is classified successfully on a path where its "+fld+" field holds a value that did not pass ociref."+pred+": the backend can be called with a syntactically invalid "+strings.ToLower(fld))
+		}
+	}
+	// classification outcomes decided inside followed helpers count as well
+	for h, ok := range followed {
+		if !ok {
+			continue
+		}
+		c.Analysed(facts.FuncName(h))
+		for _, r := range returnsOf(h) {
+			if facts.RetErrIsNil(r) {
+				n++
+			}
 		}
 	}
 	if n < 10 {
@@ -545,7 +582,7 @@ func c06StatusFollowsCode(c *core.Ctx, rule string) {
 	}
 	c.Analysed("ociregistry.MarshalError")
 	n := 0
-	for _, ci := range facts.CallsIn(me) {
+	for _, ci := range statusDeciderCalls(c, me) {
 		cc := ci.Common()
 		if !cc.IsInvoke() || cc.Method.Name() != "StatusCode" {
 			continue
